@@ -53,6 +53,32 @@ def _path_fns(P):
     return normalize, relative, resolve
 
 
+_NORMALISERS = {}
+
+
+def _normalisers(P):
+    """functions of nitrogql_utils that normalise by role: they fold `components()` through a match in which `..` pops a stack and
+    `.` contributes nothing (normalize_path itself, or a constructor of a normalised-path type)"""
+    if id(P) not in _NORMALISERS:
+        out = set()
+        for f in P.fns.values():
+            if not f.path.startswith(UT) or f.derived or f.kind not in ("Fn", "AssocFn"):
+                continue
+            for m in _component_matches(f):
+                i, j = first_match(m, "ParentDir"), first_match(m, "Normal")
+                if i is None or j is None:
+                    continue
+                if any(o in ("pop", "truncate") for o in _vec_ops(m["arms"][i]["body"])) and "push" in _vec_ops(m["arms"][j]["body"]):
+                    out.add(f.path)
+        _NORMALISERS[id(P)] = out
+    return _NORMALISERS[id(P)]
+
+
+def _normalised(P, atoms):
+    ns = _normalisers(P)
+    return any(a[0] in ("call", "def") and (a[1] in ns or any(a[1].endswith("::" + n.split("::")[-1]) and n.split("::")[-2:] == a[1].split("::")[-2:] for n in ns)) for a in atoms)
+
+
 def _component_matches(f):
     out = []
     for n in f.walk():
@@ -200,7 +226,8 @@ def _side(atoms, p_from, p_to):
 
 def r20b(P, R):
     normalize, relative, _ = _path_fns(P)
-    relative = inlined(P, relative, pred=lambda g: g.path != normalize.path)
+    norms = _normalisers(P) | {normalize.path}
+    relative = inlined(P, relative, pred=lambda g: g.path not in norms)
     pv, names = _params(relative)
     if len(names) != 2 or None in names:
         R.undecided("R20-b", "params", "relative_path parameters are destructured; roles not identified", loc=relative.loc())
@@ -217,14 +244,14 @@ def r20b(P, R):
         s = _side(a, p_from, p_to)
         key = "+".join(sorted(s)) or "?"
         sides[key] = c
-        R.check("R20-b", "normalised-inputs:" + key, has_call(a, normalize.path.split("::")[-1]) or has_call(a, "canonicalize"),
+        R.check("R20-b", "normalised-inputs:" + key, has_call(a, normalize.path.split("::")[-1]) or has_call(a, "canonicalize") or _normalised(P, a),
                 "components of `%s` are taken after normalisation" % key,
                 "relative_path compares the raw components of `%s` (no normalize_path on the way): `a/x/../b` and `a/b` share no prefix "
                 "beyond `a`, and `..` components reach the reversal step" % key, loc=loc)
     # (2) the file name of `from`, and only of `from`, is dropped
     drops = {"from": [], "to": []}
     for x in relative.walk():
-        if x.get("k") == "MethodCall" and x["method"] in DROP_LAST and "Path" in (norm(x.get("recv_ty")) or ""):
+        if x.get("k") == "MethodCall" and x["method"] in DROP_LAST and ("Path" in (norm(x.get("recv_ty")) or "") or "Component" in (norm(x.get("recv_ty")) or "")):
             for s in _side(pv.atoms(x["recv"]), p_from, p_to):
                 drops[s].append(x["method"])
     arith = [x for x in relative.walk() if x.get("k") == "Binary" and x.get("op") in ("-", "Sub")]
